@@ -272,6 +272,8 @@ type VMgrEnv struct {
 	answers   []bool
 	RelayPort int      // if non-zero, relay sockets report this port
 	PortScript []int   // if set: the ports successive relay sockets report
+	HonourPort bool    // a requested port is the port the relay socket reports (what the bundled generators do)
+	ReqPorts   []int   // the RequestedPort of every AllocatePacketConn call
 }
 
 func VNewManager(failAlloc, veto bool) *VMgrEnv {
@@ -288,6 +290,10 @@ func VNewManager(failAlloc, veto bool) *VMgrEnv {
 			}
 			if n := len(env.Relays); n < len(env.PortScript) {
 				addr.Port = env.PortScript[n]
+			}
+			env.ReqPorts = append(env.ReqPorts, c.RequestedPort)
+			if env.HonourPort && c.RequestedPort != 0 {
+				addr.Port = c.RequestedPort
 			}
 			pc := &VPacketConn{Name: "relay", Local: addr, Gated: true}
 			if env.IdleRelays {
